@@ -170,16 +170,17 @@ def v2_row(kind="balanced", impact="small", long_price=2600.0, short_price=1.0):
     }
 
 
-def v2_frame(n=3, kind="balanced", impact="small"):
-    rows = [v2_row(kind, impact, 2600.0 + 5 * i) for i in range(n)]
+def v2_frame(n=3, kind="balanced", impact="small", single_token=False):
+    rows = [v2_row(kind, impact, 2600.0 + 5 * i, short_price=(2600.0 + 5 * i) if single_token else 1.0) for i in range(n)]
     return pd.DataFrame(rows, index=minutes(n))
 
 
-def make_v2(df, name="gmx2"):
+def make_v2(df, name="gmx2", single_token=False):
     from demeter.gmx import GmxV2Market
     from demeter.gmx._typing2 import GmxV2Pool
 
-    return GmxV2Market(MarketInfo(name, MarketTypeEnum.gmx_v2), GmxV2Pool(V2_LONG, V2_SHORT, V2_LONG), data=df)
+    short = V2_LONG if single_token else V2_SHORT  # single-token pools (long = short = index token) exist in GMX v2
+    return GmxV2Market(MarketInfo(name, MarketTypeEnum.gmx_v2), GmxV2Pool(V2_LONG, short, V2_LONG), data=df)
 
 
 def v2_prices(df, market):
@@ -255,6 +256,7 @@ class Gmx2Adapter:
         self.market = market
         self.data = data
         self.ctx = None
+        self.long, self.short = market.long_token, market.short_token
 
     def raw(self):
         return {"gm": self.market.amount}
@@ -284,9 +286,9 @@ class Gmx2Adapter:
         out = []
         bal = lambda t: ctx.broker.get_token_balance(t) if t in ctx.broker.assets else Decimal(0)
         for lc, sc in (("part", "part"), ("part", "0"), ("0", "part"), ("all", "all"), ("over", "part"), ("part", "over"), ("0", "0"),
-                       ("dust", "dust")):
+                       ("dust", "dust"), ("all", "part"), ("part", "all")):
             def args(c, lc=lc, sc=sc):
-                return amount(lc, bal(V2_LONG)), amount(sc, bal(V2_SHORT))
+                return amount(lc, bal(self.long)), amount(sc, bal(self.short))
             out.append(Op(f"{n}.deposit[{lc},{sc}]", lambda c, args=args: m.deposit(*args(c)), (lc, sc) not in (("part", "part"), ("part", "0"), ("0", "part")),
                           f"{n}.deposit", {"deposit_args": args}))
         for cls in ("part", "None", "all", "over", "0"):
